@@ -18,9 +18,10 @@ type memoryStorageRecord struct {
 }
 
 func (m *MemoryStorage) Save(name Name, snapshot Snapshot, events []Event) error {
+	// the record keeps its own copy of the events: the caller goes on appending to (and truncating) its slice
 	memoryStorageRecords.Store(name, &memoryStorageRecord{
 		snapshot: snapshot,
-		events:   events,
+		events:   append([]Event(nil), events...),
 	})
 	return nil
 }
